@@ -138,6 +138,7 @@ type world struct {
 	lastDIVerifies []diVerify
 	suiteSubset    []string               // when set: the verifier is configured with the suites of these proof types only
 	jwtKey         *keyInfo               // issuer key of the JWT credentials embedded in presentations
+	jwtKey2        *keyInfo               // a P-256 issuer / holder key for the JWS-secured forms (ES256)
 	baseline       map[string]interface{} // the signed document as the framework parses and re-serialises it
 }
 
@@ -367,6 +368,10 @@ func (w *world) fetch(issuerID, keyID string) (*sigverifier.PublicKey, error) {
 
 	if w.jwtKey != nil && w.jwtKey.id() == full {
 		return w.jwtKey.pub, nil
+	}
+
+	if w.jwtKey2 != nil && w.jwtKey2.id() == full {
+		return w.jwtKey2.pub, nil
 	}
 
 	return nil, fmt.Errorf("verif: no key %s", full)
@@ -960,8 +965,11 @@ func main() {
 	}
 
 	nDocs, coqBudget, leafCap := 28, 1300, 30
+	jwtEvery, jwtCoqEvery := 2, 4
+
 	if args.Tier == "thorough" {
 		nDocs, coqBudget, leafCap = 150, 9000, 100
+		jwtEvery, jwtCoqEvery = 1, 3
 	}
 
 	g := &gen{rng: rng.Fork(1), w: w}
@@ -1017,6 +1025,11 @@ func main() {
 
 		if kind == "vp" {
 			w.embeddedReport(tr, sd, signed, g.embeddedBroken, args.Seed, i)
+		}
+
+		// the JWS-secured JWT forms (own generator state per document, so that a case replays by seed and index)
+		if jwtEvery > 0 && i%jwtEvery == 0 {
+			w.runJWT(tr, &gen{rng: rng.Fork(uint64(7000 + i)), w: w}, rng.Fork(uint64(8000+i)), args.Seed, i, i%jwtCoqEvery == 0)
 		}
 	}
 }
